@@ -29,6 +29,7 @@ void run1 (string e, string a, string b) {
     case "save_object": save_object (a); break;
     case "restore_object": restore_object (a); break;
     case "dumpallobj": dumpallobj (a); break;
+    case "ed": ed (a); break;
     case "dump_prog": dump_prog (this_object (), 0, a); break;
     default: VL ("badefun " + e);
   }
